@@ -136,6 +136,12 @@ def state_classes(f, b, state_field):
                     add(('to', variant_name(val)))
                 elif fl and val == xkey:
                     add(('store', fl[0], 'b'))
+                elif fl and fl != [state_field] and val[0] == 'c':
+                    add(('set', fl[0], val[1]))
+                elif fl and fl != [state_field] and val[0] == 'fld' and val[1] == ('deref', ('loc', 1)):
+                    add(('set', fl[0], 'self.' + val[2]))
+                if fl == [state_field] and val[0] == 'fld' and val[1] == ('deref', ('loc', 1)):
+                    add(('to', 'self.' + val[2]))
         t = blk['t']
         if 'call' in t:
             fn = b.callee(t) or ''
